@@ -479,8 +479,15 @@ def program_equivalence(prog1, prog2, compare_params=True, atol=1e-6, rtol=0):
 
         # add node attributes to store the operation name
         # a gate and its inverse are different operations
+        # (so are measurements with different post-selection values or dark counts)
         name_mapping = {
-            i: n.op.__class__.__name__ + (".H" if getattr(n.op, "dagger", False) else "")
+            i: n.op.__class__.__name__
+            + (".H" if getattr(n.op, "dagger", False) else "")
+            + "".join(
+                f"|{attr}={getattr(n.op, attr)!r}"
+                for attr in ("select", "dark_counts")
+                if getattr(n.op, attr, None) is not None
+            )
             for i, n in enumerate(G.nodes())
         }
         nx.set_node_attributes(circuit[-1], name_mapping, name="name")
